@@ -15,6 +15,8 @@ inductive Ev where
   | data (bs : Bytes)
   /-- n = 0, err = os.ErrDeadlineExceeded -/
   | timeout
+  /-- n = len(bs) > 0 together with err = os.ErrDeadlineExceeded (io.Reader allows data with an error) -/
+  | tdata (bs : Bytes)
   /-- n = len(bs) (possibly 0), err = io.EOF -/
   | eof (bs : Bytes)
   /-- n = len(bs) (possibly 0), err = some other I/O error -/
@@ -90,6 +92,7 @@ def withFlush (k : ClientKind) (fl : Flusher) (out : LoopOut) : LoopOut :=
 def Ev.read (space : Nat) : Ev → Bytes × String × Bool
   | .data bs => (bs.take space, "nil", false)
   | .timeout => ([], "timeout", false)
+  | .tdata bs => (bs.take space, "timeout", false)
   | .eof bs => (bs.take space, "eof", false)
   | .ioerr bs => (bs.take space, "io", false)
   | .cancel => ([], "timeout", true)
